@@ -328,6 +328,7 @@ type soakGen struct {
 	// scheduler gap: operations left until the goroutines parked behind ScheduleJob continue
 	gapLeft  int
 	gapSlots map[uint64]bool // slots whose job was set up by a parked goroutine
+	onlyPath string          // bid soaks: "" (both paths), "bid" or "auction"
 }
 
 // a slot number that never has a duty: `finish` of it does nothing in the code and in the model; it
@@ -436,16 +437,19 @@ func (g *soakGen) strayBid(s uint64) {
 		x = 0
 		g.fam["bid-stray-past"] = true
 	}
-	kind := "bid"
+	kind, other := "bid", "auction"
 	if r.Chance(1, 3) {
-		kind = "auction"
+		kind, other = "auction", "bid"
+	}
+	if g.onlyPath != "" {
+		kind, other = g.onlyPath, g.onlyPath
 	}
 	g.add(Op{K: kind, S: x})
 	if r.Chance(1, 3) {
-		g.add(Op{K: "bid", S: x}) // asked again: from the cache if it is still there
+		g.add(Op{K: kind, S: x}) // asked again (the API: from the cache if it is still there)
 	}
 	if r.Chance(1, 3) {
-		g.add(Op{K: "auction", S: s}) // and the slot we are at, again
+		g.add(Op{K: other, S: s}) // and the slot we are at, again
 	}
 }
 
@@ -472,13 +476,29 @@ func genBidSoak(r *Rand) (SoakInput, []string) {
 		}
 	}
 	density := r.Range(1, 4)
+	mode := r.Range(0, 3) // 0, 3: both paths mixed
+	switch mode {
+	case 1:
+		g.fam["bid-api-only"] = true
+		g.onlyPath = "bid"
+	case 2:
+		g.fam["bid-proposals-only"] = true
+		g.onlyPath = "auction"
+	}
 	for i := 0; i < n; i++ {
 		s := base + uint64(i)
 		if strayAt[i] {
 			g.strayBid(s)
 		}
 		if r.Chance(density, 4) {
-			switch r.Range(0, 2) {
+			pick := r.Range(0, 2)
+			switch mode {
+			case 1: // a Vouch that only serves the builder API (validators it does not propose for)
+				pick = 1
+			case 2: // proposals only
+				pick = 0
+			}
+			switch pick {
 			case 0:
 				g.add(Op{K: "auction", S: s})
 			case 1:
